@@ -7,19 +7,24 @@ from gen import opcodes
 def system_level(ctx, binary, projects, limit):
     base = ctx.mktemp()
 
+    import zlib
+
     def one(proj):
         d = programs.materialize(proj, base)
         e = proj["entry"]
-        r1 = programs.run_bin(binary, ["run", e, "-q"], d)
+        # the path is spelled in three ways (plain, with a leading `./`, absolute): the same spelling in every step
+        how = zlib.crc32(proj["name"].encode()) % 3
+        sp = lambda dd, f: f if how == 0 else ("./" + f if how == 1 else os.path.join(dd, f))
+        r1 = programs.run_bin(binary, ["run", sp(d, e), "-q"], d)
         d2 = programs.materialize(proj, base)
-        c = programs.run_bin(binary, ["compile", e, "--quick", "--output-format", "raw-text"], d2)
+        c = programs.run_bin(binary, ["compile", sp(d2, e), "--quick", "--output-format", "raw-text"], d2)
         r2 = t = None
         if c[0] == 0:
             stem = e[:-3]
             os.rename(os.path.join(d2, stem + ".mmm"), os.path.join(d2, stem + ".transpiled.mmm"))
-            t = programs.run_bin(binary, ["transpile", stem + ".transpiled.mmm"], d2)
+            t = programs.run_bin(binary, ["transpile", sp(d2, stem + ".transpiled.mmm")], d2)
             if t[0] == 0:
-                r2 = programs.run_bin(binary, ["execute", stem + ".mmm"], d2)
+                r2 = programs.run_bin(binary, ["execute", sp(d2, stem + ".mmm")], d2)
         if r2 is not None and not programs.same_output(r1[1], r2[1], proj):
             again = programs.run_bin(binary, ["run", e, "-q"], d)
             if not programs.same_output(r1[1], again[1], None):
@@ -28,7 +33,8 @@ def system_level(ctx, binary, projects, limit):
         shutil.rmtree(d2, ignore_errors=True)
         return proj, r1, c, t, r2
 
-    single = [p for p in projects if len(p["files"]) == 1 and "import" not in list(p["files"].values())[0]]
+    from . import c04
+    single = c04.failing_and_colliding_programs() + [p for p in projects if len(p["files"]) == 1 and "import" not in list(p["files"].values())[0]]
     res = programs.pmap(one, single[:limit])
     n = 0
     for proj, r1, c, t, r2 in res:
